@@ -352,8 +352,9 @@ class Ctx:
             again = [r for r in again if "i" in r]
             if not again or again[0].get("ok"):
                 raise MachineryError("disagreement %s did not reproduce in a fresh process: %s" % (k, json.dumps(first)[:500]))
+            vers = sorted(set(str(records[r["i"]].get("ver")) for r in rs if isinstance(records[r["i"]], dict) and "ver" in records[r["i"]]))
             what = first.get("what") or (what_of(rec, first) if what_of else json.dumps({x: first[x] for x in first if x not in ("i", "ok")})[:300])
-            self.disagree(k, what, {"harness": cmd, "args": args or [], "record": rec, "result": first, "count": len(rs)})
+            self.disagree(k, what, {"harness": cmd, "args": args or [], "record": rec, "result": first, "count": len(rs), "versions": vers})
         return body
 
     # -------------------------------------------------------------- verdicts
@@ -409,8 +410,11 @@ class Ctx:
             f.write("\n")
         for k, (w, c) in sorted(self.known_hits.items()):
             print("KNOWN-FINDING: property=%s %s [key=%s, %d case(s)]" % (self.pid, w, k, c), flush=True)
-        for key, what, path in self.violations:
-            print("  disagreement key=%s: %s" % (key, what), flush=True)
+        for n, (key, what, path) in enumerate(self.violations):
+            if n < 40 or os.environ.get("VERIF_VERBOSE"):
+                print("  disagreement key=%s: %s" % (key, what[:300]), flush=True)
+            elif n == 40:
+                print("  ... %d more disagreement groups (VERIF_VERBOSE=1 shows all)" % (len(self.violations) - 40), flush=True)
             print("VIOLATION property=%s replay=%s" % (self.pid, path), flush=True)
         self.log("done: states=%d transitions=%d impl-checked=%d violations=%d known=%d wall=%.1fs" % (
             self.states, self.transitions, self.traces_validated, len(self.violations), len(self.known_hits), wall))
